@@ -61,7 +61,8 @@ fn canon_inv(r: Vec<dijkstra_spi::Spi>) -> Result<Canon, String> {
     Ok(v)
 }
 
-pub const FNS: [&str; 9] = ["all_pairs", "multi_source", "involving", "betweenness", "closeness", "all_pairs_target", "all_pairs_cutoff_first", "multi_source_subset", "involving_each"];
+pub const FNS: [&str; 14] = ["all_pairs", "multi_source", "involving", "betweenness", "closeness", "all_pairs_target", "all_pairs_cutoff_first", "multi_source_subset", "involving_each",
+    "all_pairs_dist", "all_pairs_target_dist", "all_pairs_target_first", "all_pairs_cutoff_dist", "multi_source_target_dist"];
 
 fn call(g: &G, f: &str, weighted: bool) -> Result<Canon, String> {
     let names: Vec<i32> = g.get_all_node_names().into_iter().copied().collect();
@@ -85,6 +86,12 @@ fn call(g: &G, f: &str, weighted: bool) -> Result<Canon, String> {
         "all_pairs_target" => canon_ap(dijkstra::all_pairs(g, weighted, names.get(names.len() / 3).copied(), None, false, true)),
         "all_pairs_cutoff_first" => canon_ap(dijkstra::all_pairs(g, weighted, None, Some(if weighted { 0.9 } else { 2.0 }), true, true)),
         "multi_source_subset" => canon_ap(dijkstra::multi_source(g, weighted, names.iter().step_by(3).copied().collect(), names.last().copied(), Some(if weighted { 1.5 } else { 3.0 }), false, true)),
+        // distances only: the closures choose between the basic and the full search from the option combination
+        "all_pairs_dist" => canon_ap(dijkstra::all_pairs(g, weighted, None, None, false, false)),
+        "all_pairs_target_dist" => canon_ap(dijkstra::all_pairs(g, weighted, names.get(names.len() / 3).copied(), None, false, false)),
+        "all_pairs_target_first" => canon_ap(dijkstra::all_pairs(g, weighted, names.get(names.len() / 2).copied(), None, true, true)),
+        "all_pairs_cutoff_dist" => canon_ap(dijkstra::all_pairs(g, weighted, None, Some(if weighted { 1.5 } else { 2.0 }), false, false)),
+        "multi_source_target_dist" => canon_ap(dijkstra::multi_source(g, weighted, names.clone(), names.first().copied(), None, false, false)),
         "betweenness" => canon_map(betweenness::betweenness_centrality(g, weighted, true)),
         "closeness" => canon_map(closeness::closeness_centrality(g, weighted, true)),
         _ => unreachable!(),
